@@ -9,6 +9,7 @@ import (
 	"sort"
 	"strings"
 	gosync "sync"
+	gotime "time"
 
 	"github.com/hydraide/hydraide/app/vshim/vrt"
 	"verifharness/kit"
@@ -192,3 +193,5 @@ func vrtReport(r *kit.Run, cfg vrt.Config, body func(), x *vrt.Exec, compute fun
 		r.Fail(f.h, f.disc, f.what, cs)
 	}
 }
+
+func timeOfNS(ns int64) gotime.Time { return gotime.Unix(0, ns).UTC() }
